@@ -295,7 +295,7 @@ pub fn run(ctx: &Ctx, report: &mut Report) {
         "evaluations = completed shuttle executions (one schedule each)".to_string(),
     ];
     let schedules: u16 = ctx.tier.pick(80, 300) as u16;
-    let cases = ctx.tier.pick(480, 8000);
+    let cases = ctx.tier.pick(3200, 40_000);
     run_prop(
         ctx,
         report,
